@@ -43,7 +43,7 @@ type machine struct {
 
 	// non-triviality bookkeeping
 	reopened, evicting, ovCommitShadow, seekOnDirty, getDuringIter, forked, refused bool
-	noPersist, secondCommitter                                                      bool
+	noPersist, secondCommitter, cancelled                                           bool
 	// committed: contents of the last committed (and finalized) version
 	committed kv.Model
 	stratum                                                                         string
@@ -358,6 +358,55 @@ func (m *machine) ovDiscard(t *rapid.T) {
 	m.stack = m.stack[:len(m.stack)-1]
 }
 
+// countdownCtx is a context that becomes cancelled at the n-th call of Err(): a caller that gives up (timeout, shutdown)
+// while an operation is walking down the tree.
+type countdownCtx struct {
+	context.Context
+	left int
+}
+
+func (c *countdownCtx) Err() error {
+	c.left--
+	if c.left < 0 {
+		return context.Canceled
+	}
+	return nil
+}
+
+// writeCancelled: an insert or remove on the base tree whose caller gives up part of the way down. The operation may
+// fail; whether it took effect for ITS key is then not specified (the key is written again right away), but no other key
+// may be affected - the full scan after the action shows it.
+func (m *machine) writeCancelled(t *rapid.T) {
+	if len(m.stack) != 1 {
+		t.Skip("overlays open")
+	}
+	k := m.key(t)
+	cctx := &countdownCtx{Context: context.Background(), left: rapid.IntRange(0, 6).Draw(t, "givesUpAfter")}
+	l := m.top()
+	if rapid.Bool().Draw(t, "cancelledRemove") {
+		err := l.tree.Remove(cctx, k)
+		m.log("remove %x by a caller that gives up after %d steps: %v", k, cctx.left, err)
+		if err != nil {
+			m.cancelled = true
+			if err2 := l.tree.Remove(ctx, k); err2 != nil {
+				m.fail("remove %x after a cancelled remove of the same key: %v", k, err2)
+			}
+		}
+		delete(l.model, string(k))
+	} else {
+		v := kv.GenValue(t)
+		err := l.tree.Insert(cctx, k, v)
+		m.log("insert %x by a caller that gives up: %v", k, err)
+		if err != nil {
+			m.cancelled = true
+			if err2 := l.tree.Insert(ctx, k, v); err2 != nil {
+				m.fail("insert %x after a cancelled insert of the same key: %v", k, err2)
+			}
+		}
+		l.model[string(k)] = v
+	}
+}
+
 func (m *machine) treeCommit(t *rapid.T) {
 	if len(m.stack) != 1 {
 		t.Skip("overlays open")
@@ -460,7 +509,7 @@ func (m *machine) treeCommitRefused(t *rapid.T) {
 
 const rule = "case = rapid state machine: one tree on a node database (both backends, generated cache capacity stratum, write log on/off) and a stack of 0-3 overlays created exactly as Context.NewTransaction does; " +
 	"actions on the top object: insert, remove, remove-existing; reads on any layer: get, iterator Rewind/Seek (present, absent, prefix, extension, before-first, after-last keys) + Next with gets interleaved; " +
-	"overlay push / commit (directly or via Copy) / discard / fork (Copy with both sides kept open and written); tree commit+finalize with optional close and reopen at the committed root with a new capacity; a commit the database REFUSES (into the finalized version) after which the tree goes on; a NoPersist commit (root computed, nothing stored) followed by further writes; the same contents committed first by ANOTHER tree (this tree's commit finds its root stored) after which the tree goes on; universe 1-40 prefix-heavy keys. " +
+	"overlay push / commit (directly or via Copy) / discard / fork (Copy with both sides kept open and written); tree commit+finalize with optional close and reopen at the committed root with a new capacity; a commit the database REFUSES (into the finalized version) after which the tree goes on; a NoPersist commit (root computed, nothing stored) followed by further writes; the same contents committed first by ANOTHER tree (this tree's commit finds its root stored) after which the tree goes on; an insert or remove whose caller's context is cancelled part of the way down (the key is then written again); universe 1-40 prefix-heavy keys. " +
 	"oracle = reference ordered map per layer: every result, and after every action a full scan and a get of every universe key on every layer; root after each commit equals the reference root. " +
 	"non-trivial = (commit+reopen or evicting capacity) AND an overlay commit over a key present in its parent AND a Seek to a key written/removed in that overlay; distinct = hash of the action trace"
 
@@ -530,6 +579,7 @@ func TestC03OrderedMap(t *testing.T) {
 				"ovFork":            m.ovFork,
 				"treeCommit":        m.treeCommit,
 				"treeCommitRefused": m.treeCommitRefused,
+				"writeCancelled":    m.writeCancelled,
 				"":                  func(*rapid.T) { m.fullCheck() },
 			})
 		}()
@@ -538,7 +588,7 @@ func TestC03OrderedMap(t *testing.T) {
 			on   bool
 			name string
 		}{{m.reopened, "commit+reopen"}, {m.refused, "commit-refused-then-continued"}, {m.evicting, "evicting-capacity"}, {m.ovCommitShadow, "overlay-commit-over-parent-key"},
-			{m.seekOnDirty, "seek-on-overlay-written-key"}, {m.getDuringIter, "get-during-iteration"}, {m.forked, "overlay-forked-with-copy"}, {m.noWL, "without-writelog"}, {m.noPersist, "no-persist-commit-then-continued"}, {m.secondCommitter, "committed-second-then-continued"}} {
+			{m.seekOnDirty, "seek-on-overlay-written-key"}, {m.getDuringIter, "get-during-iteration"}, {m.forked, "overlay-forked-with-copy"}, {m.noWL, "without-writelog"}, {m.noPersist, "no-persist-commit-then-continued"}, {m.secondCommitter, "committed-second-then-continued"}, {m.cancelled, "write-failed-for-a-cancelled-caller"}} {
 			if l.on {
 				rec.Label(l.name)
 			}
